@@ -65,7 +65,9 @@ def spec (c : Case) (o : Obs) : Bool × String :=
 def model (c : Case) (o : Obs) (obsText : String) : String :=
   if c.trials > 1 then obsText else
   let sc := scanLog o
-  if c.op == "cmap" && c.sync then
+  -- `bare=1`: the source is a provider function without lifecycle elements (outside the modelled Open/Close protocol);
+  -- spec-only: the log must be violation-free, which is what the theorems say about every admitted log
+  if c.op == "cmap" && c.sync && !c.kv.flag "bare" then
     match acceptCmap c o with
     | "accepted" => obsText
     | "skipped" => if sc.viol.isEmpty then obsText else "model(C02_concmap) admits no violating log"
